@@ -57,11 +57,13 @@ impl Encoder<Message> for SyncCodec {
             len
         );
 
+        // the frame is appended to whatever `dst` already holds
+        let start = dst.len();
         dst.put_u32(u32::try_from(len).expect("already checked"));
-        if dst.len() < 4 + len {
-            dst.resize(4 + len, 0u8);
+        if dst.len() < start + 4 + len {
+            dst.resize(start + 4 + len, 0u8);
         }
-        postcard::to_slice(&item, &mut dst[4..])?;
+        postcard::to_slice(&item, &mut dst[start + 4..])?;
 
         Ok(())
     }
